@@ -104,6 +104,21 @@ func (k *c04Case) corrupt() string {
 		names := []string{"NOPE_NOT_A_TYPE", "UNKNOWN[65536]", "UNKNOWN[-1]", "UNKNOWN[x]", "UNKNOWN[", "UNKNOWN]", "SYSCALLS", "", "UNKNOWN[99999999999]", "SYS CALL"}
 		_, after := k.render()
 		return "type=" + names[k.CorrArg%len(names)] + " msg=" + after
+	case "left-truncate":
+		// the beginning of the line is lost (1 .. everything before "msg="); also "type=msg=..." (name and blank lost)
+		mi := strings.Index(line, "msg=")
+		n := 1 + k.CorrArg%mi
+		out := line[n:]
+		if k.CorrArg%7 == 0 {
+			out = "type=" + line[mi:]
+		}
+		// not asserted when the damaged prefix still leaves a resolvable type name
+		if j := strings.Index(out, "msg="); j >= 6 {
+			if _, err := auparse.GetAuditMessageType(out[5 : j-1]); err == nil {
+				return ""
+			}
+		}
+		return out
 	case "no-msg-token":
 		_, after := k.render()
 		if strings.Contains(k.Body, "msg=") {
@@ -114,7 +129,7 @@ func (k *c04Case) corrupt() string {
 	return ""
 }
 
-var c04Corruptions = []string{"truncate", "drop-structural", "letter-for-digit", "seq-overflow", "bad-type-name", "no-msg-token"}
+var c04Corruptions = []string{"truncate", "drop-structural", "letter-for-digit", "seq-overflow", "bad-type-name", "no-msg-token", "left-truncate"}
 
 func sameTimestampText(got string, want time.Time) bool {
 	if got == want.UTC().String() {
@@ -235,7 +250,7 @@ func c04Gen(r *mon.Rand, typ uint16, variant int) *c04Case {
 func init() {
 	register(&mon.CheckSpec{
 		ID: "C04", Level: "exploration",
-		Rule: "cases = generated lines 'type=<name> msg=audit(S.mmm:N): body' for ALL 65536 record type codes (name as the library prints it, upper or lower case; V variants per code), seconds from {0,1,2^31-1,2^31,2^32-1,2^32,2^34-1} and random in [0,2^34), every millisecond value, sequence numbers at the uint32 boundaries and random, 18 hostile bodies (containing msg=, ( ) : . and the well-known key names, non-UTF-8, long) plus random bytes, optional blanks after msg=; for each valid line a sample of single corruptions from a closed list (truncation before ')', structural character removed, letter for a digit, N >= 2^32, unknown type name, msg= missing) must be rejected. distinct_nontrivial = distinct generated lines (valid and corrupted) by content.",
+		Rule: "cases = generated lines 'type=<name> msg=audit(S.mmm:N): body' for ALL 65536 record type codes (name as the library prints it, upper or lower case; V variants per code), seconds from {0,1,2^31-1,2^31,2^32-1,2^32,2^34-1} and random in [0,2^34), every millisecond value, sequence numbers at the uint32 boundaries and random, 18 hostile bodies (containing msg=, ( ) : . and the well-known key names, non-UTF-8, long) plus random bytes, optional blanks after msg=; for each valid line a sample of single corruptions from a closed list (truncation before ')', the beginning of the line lost, structural character removed, letter for a digit, N >= 2^32, unknown type name, msg= missing) must be rejected. distinct_nontrivial = distinct lines (by content) that are corrupted, or whose type has no table name, or that use a lower-case name, blanks after msg=, seconds or sequence >= 2^31, or a body containing structural characters or key=value text.",
 		Assumptions: []string{
 			"type names are printed with the library's own AuditMessageType.String(); name->number->name consistency of that table is C20's subject",
 			"@timestamp is accepted in Go's default time format or RFC3339 as long as it denotes the header's instant",
@@ -255,7 +270,9 @@ func init() {
 				ev.Add(1)
 				msSeen.AddHash(uint64(k.Msec))
 				line, _ := k.render()
-				nt.AddString(line)
+				if k.Lower || k.Blanks > 0 || k.Sec >= 1<<31 || k.Seq >= 1<<31 || strings.HasPrefix(auparse.AuditMessageType(k.Type).String(), "UNKNOWN[") || strings.ContainsAny(k.Body, "(.:)=") {
+					nt.AddString(line)
+				}
 				if c.WantSample() {
 					c.Sample(map[string]any{"line": clipStr(line, 200)})
 				}
